@@ -105,13 +105,40 @@ def shape_background(v):
   return d
 
 
-SHAPES = {"nested": shape_nested, "regions": shape_regions, "display": shape_display, "background": shape_background}
+def shape_ruby(v):
+  """ruby containers (both forms) inside timed paragraphs; nested div with its own region; xml:space preserve on a span"""
+  nid = _ids()
+  d = m.ContentDocument()
+  r1 = m.Region("r1", d); d.put_region(r1)
+  r2 = m.Region("r2", d); r2.set_begin(v("r2b")); r2.set_end(v("r2e")); d.put_region(r2)
+  body = m.Body(d); body.set_id(nid()); d.set_body(body)
+  div = m.Div(d); div.set_id(nid()); div.set_region(r1); div.set_begin(v("db")); div.set_end(v("de")); body.push_child(div)
+  p = m.P(d); p.set_id(nid()); p.set_begin(v("pb")); p.set_end(v("pe")); div.push_child(p)
+  s0 = m.Span(d); s0.set_id(nid()); s0.set_space(m.WhiteSpaceHandling.PRESERVE); p.push_child(s0); s0.push_child(m.Text(d, " lead "))
+  ruby = m.Ruby(d); ruby.set_id(nid()); ruby.set_begin(v("rub")); ruby.set_end(v("rue")); p.push_child(ruby)
+  rb = m.Rb(d); rb.set_id(nid()); sb = m.Span(d); sb.set_id(nid()); sb.push_child(m.Text(d, "base")); rb.push_child(sb)
+  rt = m.Rt(d); rt.set_id(nid()); st = m.Span(d); st.set_id(nid()); st.push_child(m.Text(d, " ann ")); rt.push_child(st)
+  ruby.push_children([rb, rt])
+  inner = m.Div(d); inner.set_id(nid()); inner.set_region(r2); body.push_child(inner)
+  p2 = m.P(d); p2.set_id(nid()); p2.set_begin(v("p2b")); p2.set_end(v("p2e")); inner.push_child(p2)
+  ruby2 = m.Ruby(d); ruby2.set_id(nid()); p2.push_child(ruby2)
+  rbc = m.Rbc(d); rbc.set_id(nid()); rb2 = m.Rb(d); rb2.set_id(nid()); sb2 = m.Span(d); sb2.set_id(nid()); sb2.push_child(m.Text(d, "B")); rb2.push_child(sb2)
+  rbc.push_child(rb2)
+  rtc = m.Rtc(d); rtc.set_id(nid()); rt2 = m.Rt(d); rt2.set_id(nid()); st2 = m.Span(d); st2.set_id(nid()); st2.push_child(m.Text(d, "T")); rt2.push_child(st2)
+  rtc.push_children([rt2])
+  ruby2.push_children([rbc, rtc])
+  s9 = m.Span(d); s9.set_id(nid()); s9.set_begin(v("s9b")); s9.set_end(v("s9e")); p2.push_child(s9); s9.push_child(m.Text(d, "tail"))
+  return d
+
+
+SHAPES = {"ruby": shape_ruby, "nested": shape_nested, "regions": shape_regions, "display": shape_display, "background": shape_background}
 # which of the timing variables are present (None otherwise); a few masks per shape keep the path count moderate
 MASKS = {
   "nested": [("bb", "be", "pb", "pe"), ("db", "de", "s1b", "s1e"), ("pb", "pe", "s3b", "s3e"), ("be", "de", "pe", "s1e", "s3e"), ("bb", "db", "pb", "s1b", "s3b"),
              ("s1b", "s3b", "s3e"), ("db", "s1e", "s3e")],
   "regions": [("r1b", "r1e", "p1b", "p1e"), ("d2b", "d2e", "p3e"), ("r3b", "r1e", "d2e", "p1e"), ("r1b", "d2b", "p1b", "p3e")],
   "display": [("p1b", "p1e", "ab", "ae"), ("ab", "ae", "a2b"), ("cb", "ce", "s3b"), ("rab", "rae", "p1b"), ("p1e", "ae", "ce", "rae")],
+  "ruby": [("db", "de", "rub", "rue"), ("pb", "pe", "rub"), ("r2b", "r2e", "p2b", "p2e"), ("p2e", "s9b", "s9e"), ("de", "pe", "rue", "s9e")],
   "background": [("sab", "sae", "pb", "pe"), ("s3b", "s3e", "pe"), ("gab", "gae", "pe", "s3e"), ("r2b", "r2e", "s3e"), ("sab", "pe", "s3e")],
 }
 
